@@ -116,6 +116,8 @@ enum Job {
     /// patterns lo..hi (base 3 over the combos) of one rank pair
     Patterns { rp: Rp, lo: u64, hi: u64, with_background: bool },
     Random { n: u32, index: u64 },
+    /// the complete 1326-combo range with a few odd weights (and near-complete ranges)
+    Full { n: u32, index: u64 },
 }
 
 pub fn run(ctx: &Ctx) -> Report {
@@ -153,6 +155,9 @@ pub fn run(ctx: &Ctx) -> Report {
     }
     for i in 0..ctx.tier.pick(60, 600) {
         jobs.push(Job::Random { n: 50, index: i as u64 });
+    }
+    for i in 0..ctx.tier.pick(16, 160) {
+        jobs.push(Job::Full { n: 8, index: i as u64 });
     }
     let seed = ctx.seed;
     let results = par_run(
@@ -205,6 +210,24 @@ pub fn run(ctx: &Ctx) -> Report {
                     }
                     report.count("in_rank_pair_patterns_sampled", 3002 + 2 * n as u64);
                 }
+            }
+            Job::Full { n, index } => {
+                let mut rng = Rng::derive(seed, "c12-full", *index);
+                let all = crate::conv::all_pairs();
+                for k in 0..*n {
+                    let (a, b) = weight_pair(&mut rng);
+                    let mut content: Content = all.iter().map(|p| (*p, a)).collect();
+                    // 0..5 combos with the other weight, 0..2 combos removed
+                    for _ in 0..(k % 6) {
+                        content.insert(all[rng.usize_below(all.len())], b);
+                    }
+                    for _ in 0..(k % 3) {
+                        content.remove(&all[rng.usize_below(all.len())]);
+                    }
+                    check_content(&content, "full", report, stats);
+                    report.note_distinct(content_hash(&content));
+                }
+                report.count("complete_and_near_complete_1326_ranges", *n as u64);
             }
             Job::Random { n, index } => {
                 let mut rng = Rng::derive(seed, "c12-random", *index);
